@@ -81,6 +81,12 @@ pub struct Tx<'a> {
     pub link_subst: Option<String>,
     /// R27: `X = loop { .. break V; .. }` is emitted as `loop { .. X = V; break; .. }` (Verus has no break-with-value)
     pub break_targets: Vec<Option<String>>,
+    /// //@ARMBODY <Kind::K>: the body of the statement-level entry-match arm with that pattern is replaced by the given lines
+    /// (the arm is under contract elsewhere as an extracted block, //@FNA)
+    pub arm_bodies: BTreeMap<String, Vec<String>>,
+    pub arm_bodies_used: Vec<String>,
+    /// //@RET <expr>: value returned where the extracted block leaves through a `continue` of the enclosing loop
+    pub fna_ret: Option<String>,
 }
 
 fn path_str(p: &syn::Path) -> String {
@@ -1398,6 +1404,16 @@ impl<'a> Tx<'a> {
                     }
                     let guard = match &a.guard { Some((_, g)) if self.ops => format!(" if {}", self.expr(g)), _ => String::new() };
                     self.push(ind + 1, format!("{}{} => {{", pat, guard), a.span().start().line, false);
+                    if on_entry {
+                        if let Some(lines) = self.arm_bodies.get(&pat.replace(' ', "")).cloned() {
+                            for l0 in lines {
+                                self.push(ind + 2, l0.trim().to_string(), a.span().start().line, true);
+                            }
+                            self.arm_bodies_used.push(pat.replace(' ', ""));
+                            self.push(ind + 1, "}".into(), 0, false);
+                            continue;
+                        }
+                    }
                     self.ctx.push(pat.replace(' ', ""));
                     if let Some(b) = &bound {
                         // `BinEntry::K(ref x)`: x is the object behind the matched pointer
@@ -1504,7 +1520,10 @@ impl<'a> Tx<'a> {
                     let k = self.ret_count;
                     self.ret_count += 1;
                     self.mark(ind, format!("ret#{}", k));
-                    self.push(ind, "return;".into(), ln, true);
+                    match self.fna_ret.clone() {
+                        Some(v) => self.push(ind, format!("return {};", v), ln, true),
+                        None => self.push(ind, "return;".into(), ln, true),
+                    }
                 } else {
                     self.push(ind, "continue;".into(), ln, true);
                 }
@@ -1663,6 +1682,7 @@ pub fn generate(idx: &SrcIndex, template: &str) -> ArenaOut {
             let mut loops: BTreeMap<String, Vec<String>> = BTreeMap::new();
             let mut cur: Option<(bool, String)> = None; // (is_loop, key)
             let mut seen_body = false;
+            let mut fna_ret: Option<String> = None;
             i += 1;
             while i < lines.len() {
                 let l = lines[i];
@@ -1670,12 +1690,21 @@ pub fn generate(idx: &SrcIndex, template: &str) -> ArenaOut {
                 if lt == "//@END" {
                     break;
                 }
+                if let Some(r) = lt.strip_prefix("//@RET ") {
+                    fna_ret = Some(r.trim().to_string());
+                    i += 1;
+                    continue;
+                }
                 if lt == "//@BODY" {
                     seen_body = true;
                     cur = None;
                 } else if let Some(a) = lt.strip_prefix("//@AT ") {
                     cur = Some((false, a.trim().to_string()));
                     at.entry(a.trim().to_string()).or_default();
+                } else if let Some(a) = lt.strip_prefix("//@ARMBODY ") {
+                    let k = format!("armbody:{}", a.trim());
+                    cur = Some((false, k.clone()));
+                    at.entry(k).or_default();
                 } else if let Some(a) = lt.strip_prefix("//@LOOP ") {
                     cur = Some((true, a.trim().to_string()));
                     loops.entry(a.trim().to_string()).or_default();
@@ -1763,7 +1792,8 @@ pub fn generate(idx: &SrcIndex, template: &str) -> ArenaOut {
                     }
                 }
                 Some(f) => {
-                    let mut tx = Tx { f, lines: vec![], errors: vec![], aliases: vec![], loop_count: 0, ret_count: 0, self_is_bin: f.owner == "TreeBin" && !own, pre: vec![], tmp_count: 0, verbatim, self_ptr: own, ctx: vec![], lock_vars: vec![], value_vars: vec![], ops, wrap, break_targets: vec![], link_alias: None, link_subst: None };
+                    let arm_bodies: BTreeMap<String, Vec<String>> = at.iter().filter_map(|(k, v)| k.strip_prefix("armbody:").map(|p0| (p0.replace(' ', ""), v.clone()))).collect();
+                    let mut tx = Tx { f, lines: vec![], errors: vec![], aliases: vec![], loop_count: 0, ret_count: 0, self_is_bin: f.owner == "TreeBin" && !own, pre: vec![], tmp_count: 0, verbatim, self_ptr: own, ctx: vec![], lock_vars: vec![], value_vars: vec![], ops, wrap, break_targets: vec![], link_alias: None, link_subst: None, arm_bodies: arm_bodies.clone(), arm_bodies_used: vec![], fna_ret: fna_ret.clone() };
                     tx.block(&f.block, 1);
                     errors.extend(tx.errors.iter().cloned());
                     // resolve anchors
@@ -1832,6 +1862,9 @@ pub fn generate(idx: &SrcIndex, template: &str) -> ArenaOut {
                                 used.push(pk);
                             }
                         }
+                    }
+                    for u0 in &tx.arm_bodies_used {
+                        used.push(format!("armbody:{}", u0));
                     }
                     for k in at.keys() {
                         if k != "entry" && k != "exit" && !used.contains(k) {
